@@ -214,3 +214,48 @@ var replayers = map[string]func(map[string]any){
 		fmt.Println("REPLAY: not-reproduced")
 	},
 }
+
+func init() {
+	replayers["(*BaseLayout).GetFileLine"] = func(in map[string]any) {
+		oracle := func(W int, file string, line int) string {
+			fl := fmt.Sprintf("%s:%d", file, line)
+			want := fl
+			if len(fl) > W {
+				keep := W - 3
+				if keep < 0 {
+					keep = 0
+				}
+				want = "..." + fl[len(fl)-keep:]
+			}
+			var got string
+			var pan any
+			func() {
+				defer func() { pan = recover() }()
+				got = (&BaseLayout{FileLineLength: W}).GetFileLine(&Event{File: file, Line: line})
+			}()
+			if pan != nil {
+				return fmt.Sprintf("GetFileLine panics: %v", pan)
+			}
+			if got != want {
+				return fmt.Sprintf("GetFileLine = %q, want %q", got, want)
+			}
+			return ""
+		}
+		W, file, line := rInt(in["W"]), rBytes(in["file"]), rInt(in["line"])
+		if msg := oracle(W, file, line); msg != "" {
+			fmt.Printf("REPLAY: confirmed W=%d file=%q line=%d: %s\n", W, file, line, msg)
+			return
+		}
+		for W := -5; W <= 60; W++ {
+			for _, f := range []string{"", "a.go", "file.go", strings.Repeat("d/", 30) + "x.go"} {
+				for _, l := range []int{0, 7, 12345} {
+					if msg := oracle(W, f, l); msg != "" {
+						fmt.Printf("REPLAY: confirmed (bounded search W in -5..60) W=%d file=%q line=%d: %s\n", W, f, l, msg)
+						return
+					}
+				}
+			}
+		}
+		fmt.Println("REPLAY: not-reproduced")
+	}
+}
